@@ -28,6 +28,14 @@ func (m *Limit) Run(ctx ExecutionContext, produce ProduceFn, metaSend MetaSendFn
 		return fmt.Errorf("couldn't evaluate limit expression: %w", err)
 	}
 
+	if limit.Int < 0 {
+		return fmt.Errorf("limit must be positive, got %d", limit.Int)
+	}
+	if limit.Int == 0 {
+		// Nothing to produce; the check below only fires after a record has been produced.
+		return nil
+	}
+
 	limitNodeID := ulid.MustNew(ulid.Now(), rand.Reader).String()
 
 	i := int64(0)
